@@ -3,3 +3,5 @@ import Tetl.C06.Model.Seq
 import Tetl.C06.Model.Mut
 import Tetl.C06.Model.Sort
 import Tetl.C06.Model.Num
+import Tetl.C06.Model.Out
+import Tetl.C06.Model.Needle
